@@ -6,11 +6,23 @@ from engine import ok, bad, assumed, floor
 import r_order, r_errd
 
 CHAR_NEXT = "<std::str::CharIndices<'a> as std::iter::Iterator>::next"
-FINITE_NEXT = re.compile(r"^(<std::vec::IntoIter<T, A> as std::iter::Iterator>::next|<std::slice::Iter<'a, T> as std::iter::Iterator>::next|"
-                         r"<std::slice::IterMut<'a, T> as std::iter::Iterator>::next|std::iter::range::<impl std::iter::Iterator for std::ops::Range<A>>::next|"
-                         r"<std::str::Chars<'a> as std::iter::Iterator>::next|<std::str::CharIndices<'a> as std::iter::Iterator>::next|"
-                         r"<std::collections::hash_map::Iter<'a, K, V> as std::iter::Iterator>::next|<std::iter::Enumerate<I> as std::iter::Iterator>::next|"
-                         r"<std::iter::Zip<A, B> as std::iter::Iterator>::next|<std::str::Split<'a, P> as std::iter::Iterator>::next|<std::iter::Rev<I> as std::iter::Iterator>::next)$")
+# Iterator::next of any std iterator counts as drawing an item from a finite source, except the
+# unbounded ones (deny-list)
+INFINITE_NEXT = re.compile(r"(std::ops::RangeFrom<|std::iter::Repeat<|std::iter::RepeatWith<|std::iter::Cycle<|std::iter::Successors<|std::iter::FromFn<|std::iter::RepeatN<|std::sync::mpsc|std::io::Lines<|std::iter::Once<.*Cycle)")
+
+
+class _Finite:
+    def match(self, rd):
+        if not rd:
+            return None
+        if not (rd.endswith('as std::iter::Iterator>::next') or re.search(r'impl std::iter::Iterator for .*>::next$', rd) or rd.endswith('as std::iter::DoubleEndedIterator>::next_back')):
+            return None
+        if INFINITE_NEXT.search(rd):
+            return None
+        return True
+
+
+FINITE_NEXT = _Finite()
 
 
 class TermModel:
